@@ -11,7 +11,7 @@ from hypothesis import strategies as st
 from pbt import strategies as S
 from pbt.common import Stats, Sub, Violation
 from pbt.model import Model
-from pbt.sut import Converter, curies, mk_records
+from pbt.sut import BUILD_MODES, Converter, curies, mk_converter_via, mk_records
 
 PROPERTY_ID = "C15"
 RULE = (
@@ -162,8 +162,10 @@ def check_roundtrip(case, stats: Stats) -> None:
 # ------------------------------------------------------------------------------------------------ algebra
 @st.composite
 def algebra_cases(draw, tier="quick"):
-    ps = draw(st.lists(st.sampled_from(["a", "b", "A", "", "ab", "é"]), min_size=1, max_size=3))
-    ids = draw(st.lists(st.sampled_from(["", "1", "2", "10", "a", "A", ":", "é"]), min_size=1, max_size=3))
+    # pools rich in proper-prefix relations whose next character sorts below / above the separator ':' (0x3A), so that
+    # an order computed on the printed CURIE instead of on the pair differs from the lexicographic order on the pair
+    ps = draw(st.lists(st.sampled_from(["a", "b", "A", "", "ab", "é", "a1", "a.b", "a-", "a.", "a ", "a~", "a/", "B"]), min_size=1, max_size=4))
+    ids = draw(st.lists(st.sampled_from(["", "1", "2", "10", "a", "A", ":", "é", "1:", "1.", "1 ", ":1", "-"]), min_size=1, max_size=3))
     n = draw(st.integers(2, 7))
     refs = []
     for _ in range(n):
@@ -225,12 +227,12 @@ def context_cases(draw, tier="quick"):
         else:
             p = draw(st.sampled_from(["zz", "", "a", "A1"]))
         probes.append([p, draw(st.sampled_from(["1", "", "a:b", "é"]))])
-    return {"records": recs, "probes": probes, "name": draw(st.sampled_from(NAMES))}
+    return {"records": recs, "probes": probes, "name": draw(st.sampled_from(NAMES)), "build": draw(st.sampled_from(BUILD_MODES))}
 
 
 def check_context(case, stats: Stats) -> None:
     recs = case["records"]
-    conv = Converter(mk_records(recs))
+    conv = mk_converter_via({"delimiter": ":", "records": recs}, case.get("build", "at-once"))
     model = Model(recs)
     for p, i in case["probes"]:
         if ":" in p:
